@@ -456,6 +456,52 @@ class UnescapeSpec(object):
     pass
 
 
+class MultiPass(Exception):
+    """The decoder rewrites the whole text before (or after) its left-to-right scan: a definite defect, since an
+    escape sequence can then be recognised at a position that the scan would have reached in another state
+    (after an escaped backslash)."""
+
+    def __init__(self, node, text, written, single, multi):
+        Exception.__init__(self, text)
+        self.node, self.text, self.written, self.single, self.multi = node, text, written, single, multi
+
+
+def _prepass(model, modname, fn, s, loop):
+    """statements outside the scanning loop that rewrite the subject string as a whole"""
+    for st in body_wo_doc(fn):
+        if st is loop or not isinstance(st, ast.Assign) or len(st.targets) != 1 or norm(st.targets[0]) != s:
+            continue
+        v = st.value
+        if not (isinstance(v, ast.Call) and isinstance(v.func, ast.Attribute) and v.func.attr in ('sub', 'replace', 'translate')):
+            continue
+        if not any(isinstance(x, ast.Name) and x.id == s for x in ast.walk(v)):
+            continue
+        pat = None
+        if v.func.attr == 'sub':
+            rc = model.fold(modname, v.func.value)
+            pat = getattr(rc, 'pattern', None)
+            if pat is None and norm(v.func.value) == 're' and v.args:
+                pat = model.fold(modname, v.args[0])
+        elif v.func.attr == 'replace' and v.args:
+            lit = model.fold(modname, v.args[0])
+            pat = re.escape(lit) if isinstance(lit, str) else None
+        w = None
+        if isinstance(pat, str):
+            try:
+                rx = L.PyRegex(pat).full()
+                hit = L.find_common(L.build(rx), L.build(L.rcat(L.rlit('\\'), L.rany_star())))
+                if hit is not None:
+                    w = ''.join(chr(c) for c in hit)
+            except Exception:
+                w = None
+        if w:
+            written = '\\' + w
+            raise MultiPass(st, 'the whole text is rewritten with `%s` outside the scanning loop' % norm(v)[:70],
+                            written, '\\' + w[1:], 'backslash followed by the rewritten form of %r' % w)
+        raise MultiPass(st, 'the whole text is rewritten with `%s` outside the scanning loop' % norm(v)[:70],
+                        None, None, None)
+
+
 def extract_unescape(model, modname='zincparser', fnname='_unescape'):
     fn = model.func(modname, fnname)
     a = [x.arg for x in fn.args.args]
@@ -465,6 +511,7 @@ def extract_unescape(model, modname='zincparser', fnname='_unescape'):
     sp = UnescapeSpec()
     sp.fn = fn
     loops = [st for st in body_wo_doc(fn) if isinstance(st, ast.While)]
+    _prepass(model, modname, fn, s, loops[0] if len(loops) == 1 else None)
     if len(loops) != 1 or norm(loops[0].test) not in ('len(%s) > 0' % s, s, 'len(%s)' % s, '%s != \'\'' % s):
         raise Unsupported('%s: main loop not recognised' % fnname)
     body = loops[0].body
